@@ -1,7 +1,7 @@
 From Coq Require Import Extraction ExtrOcamlBasic.
 From PahoV Require Import Base.Prelude Link.Conn Link.ConnCheck Link.ConnWire Link.ConnInv Link.ConnStatements.
 Extraction Language OCaml.
-(* entry 4: [ext; sockcb; proto; nops; ops...] -> [c10_ops_ok; c16_ops_ok] ++ verdicts of the model's own trace ++ [hypotheses hold when exclusion D/G/R/C/F/E alone is dropped]
+(* entry 4: [ext; sockcb; proto; nops; ops...] -> [c10_ops_ok; c16_ops_ok] ++ verdicts of the model's own trace ++ [hypotheses hold when exclusion D/R alone is dropped]
    (used to test the theorem statements themselves on random inputs) *)
 Definition entry_stmt (args : list Z) : list Z :=
   match args with
@@ -9,9 +9,7 @@ Definition entry_stmt (args : list Z) : list Z :=
       let c := mkCfg (z2b e) (z2b sc) p in
       let ops := dec_ops (Z.to_nat n) rest in
       [b2z (c10_ops_ok c ops); b2z (c16_ops_ok ops)] ++ verdicts c (optrace c ops)
-      ++ [b2z (c10_ops_sel false true true true true true c ops); b2z (c10_ops_sel true false true true true true c ops);
-          b2z (c10_ops_sel true true false true true true c ops); b2z (c10_ops_sel true true true false true true c ops);
-          b2z (c10_ops_sel true true true true false true c ops); b2z (c10_ops_sel true true true true true false c ops)]
+      ++ [b2z (c10_ops_sel false true c ops); b2z (c10_ops_sel true false c ops)]
   | _ => []
   end.
 Definition entries : list (Z * (list Z -> list Z)) :=
